@@ -446,6 +446,18 @@ func runC10(c *core.Ctx, idx int) {
 		} else {
 			c.Nontrivial("junk", mutated)
 		}
+		// a raw control character inside a string literal (the grammar wants it escaped: \n, \t ...): no sentence either
+		if open := strings.Index(s, `"`); open >= 0 && r.P(0.3) {
+			if closeRel := strings.Index(s[open+1:], `"`); closeRel >= 0 && !strings.Contains(s[open+1:open+1+closeRel], `\`) {
+				ctl := core.Pick(r, []string{"\t", "\n", "\x01", "\x1f", "\r"})
+				at := open + 1 + r.Intn(closeRel+1)
+				broken := s[:at] + ctl + s[at:]
+				c.Count("raw_control_character_inserted_into_a_literal", 1)
+				if e.try(broken, "raw control character inside a string literal") {
+					c.Violationf("C10 a string literal holding a raw control character is accepted", map[string]any{"input": broken, "sentence": s}, "%q is accepted (control character %q inside the literal)", broken, ctl)
+				}
+			}
+		}
 		// a byte that is no character at all (invalid UTF-8), anywhere - also inside a string literal, where every
 		// character is welcome: the text is no sentence, and must not be read as one about U+FFFD
 		if r.P(0.3) {
